@@ -389,6 +389,8 @@ func (p *puppet) is(req raft.InstallSnapshotRequest) (raft.InstallSnapshotRespon
 		}
 		hb := raft.AppendEntriesRequest{LeaderID: req.LeaderID, Term: req.Term, PrevLogIndex: req.LastIncludedIndex, PrevLogTerm: req.LastIncludedTerm, LeaderCommit: req.LastIncludedIndex}
 		p.log("  (handler waiting: heartbeat prev %d commit %d)", hb.PrevLogIndex, hb.LeaderCommit)
+		// this request overlaps the waiting handler: before/after samples around it are not exact
+		p.M.Emit(mon.Event{Kind: mon.KNote, Str: "concurrent-requests"})
 		p.eps[req.LeaderID].SendAppendEntries("p", hb)
 	}
 }
@@ -548,25 +550,25 @@ func puppetIS(p *puppet, r *rand.Rand) {
 		p.M.Emit(ev)
 		return s
 	}
+	// B is the newer snapshot (of leader tb), A an older one with a strictly smaller label: two different
+	// byte contents for one label cannot exist in a correct cluster
 	tb := 2 + r.Intn(2)
 	ib := 1 + r.Intn(w.C[tb])
-	ta := 1 + r.Intn(tb)
-	ia := 1 + r.Intn(w.C[ta])
-	if ia > ib {
-		ia, ib = ib, ia
-		if w.C[ta] < ia {
-			ia = w.C[ta]
+	srcs := []*srcSnap{mkSrc(tb, ib, 100+r.Intn(80))}
+	if ib > 1 {
+		ta := 1 + r.Intn(tb)
+		maxA := ib - 1
+		if w.C[ta] < maxA {
+			maxA = w.C[ta]
 		}
+		ia := 1 + r.Intn(maxA)
+		srcs = append([]*srcSnap{mkSrc(ta, ia, 10+r.Intn(60))}, srcs...)
 	}
-	if ia > w.C[ta] {
-		ia = w.C[ta]
-	}
-	srcs := []*srcSnap{mkSrc(ta, ia, 10+r.Intn(60)), mkSrc(tb, ib, 100+r.Intn(80))}
 	nreq := 1 + r.Intn(5)
 	// most sequences are "mostly in order" so that installs complete; others are hostile
 	next := [2]int{0, 0}
 	for i := 0; i < nreq; i++ {
-		si := r.Intn(2)
+		si := r.Intn(len(srcs))
 		s := srcs[si]
 		ci := next[si]
 		hostile := r.Intn(3) == 0
@@ -576,11 +578,10 @@ func puppetIS(p *puppet, r *rand.Rand) {
 		ch := s.chunks[ci]
 		off := int64(ch[0])
 		done := ci == len(s.chunks)-1
-		if hostile && r.Intn(2) == 0 {
-			// wrong offsets are in the domain; a Done flag on a non-final chunk is not (that is a faulty
-			// sender, not a stale/duplicated/reordered/interleaved chunk)
-			off = int64(r.Intn(len(s.data) + 1))
-		}
+		// Offsets and Done flags stay truthful (each request is a real chunk of a snapshot the sender has):
+		// "wrong" offsets reach the node through reordering, duplication and interleaving, which is the
+		// domain; a request that lies about where its bytes belong is a corrupt sender, not a stale one.
+		_ = off
 		term := uint64(s.t)
 		switch r.Intn(6) {
 		case 0:
